@@ -1,7 +1,8 @@
 (* C03 — honest shuffle proofs always verify (completeness of the Terelius-Wikström proof as implemented). *)
 From Coq Require Import ZArith List Permutation.
 From Strand Require Import Base.ZUtil Model.Outcome Model.Codec Model.Backend Model.ZBackend Model.Zkp
-  Model.Shuffler Proofs.Laws Proofs.ZLaws Proofs.ShuffleP.
+  Model.Shuffler Proofs.Laws Proofs.ZLaws Proofs.ShuffleP
+  Base.ZpField Base.Edwards Model.Ristretto Model.RistrettoFast Model.RBackend Proofs.RistrettoGroup Proofs.EdwardsBackend.
 Open Scope Z_scope.
 
 (* for EVERY backend satisfying the group laws, every N >= 1, every input list of member ciphertexts (repeats
@@ -38,3 +39,20 @@ Theorem C03_mult_backends : forall K fl P, GoodParams P ->
              check_proof (ZB K fl P) pk gens pf es e_primes label = Ok true.
 Proof. intros K fl P G. exact (tw_complete (ZB K fl P) (member P) (ZB_laws K fl P G)). Qed.
 Print Assumptions C03_mult_backends.
+
+(* the curve25519 Edwards group (affine points of order dividing l, the algebra the ristretto backend computes in:
+   Proofs/EdwardsBackend.v rb_ab_morphism) satisfies the laws WITHOUT hypotheses, so shuffle-proof completeness holds
+   for it outright, for every serialiser and hash function *)
+Theorem C03_edwards_group : forall (K : Kernel) (PM : PMul),
+  forall (pk : E (AB K)) (gens : list (E (AB K))) (es : list (ctext (AB K))) (rs_reenc : list Z) (perm : list Z)
+         (label : bytes) (draws : list Z) (e_primes : list (ctext (AB K))) (rs' : list Z),
+  memA pk -> Forall memA gens -> Forall (fun c : ctext (AB K) => memA (mhr c) /\ memA (gr c)) es ->
+  Permutation perm (map Z.of_nat (seq 0 (length es))) ->
+  (1 <= length es)%nat -> length gens = S (length es) ->
+  Forall (fun r => 0 <= r) rs_reenc -> length rs_reenc = length es ->
+  Forall (fun r => 0 <= r) draws -> length draws = (4 * length es + 4)%nat ->
+  apply_permutation (AB K) pk perm es rs_reenc = Ok (e_primes, rs') ->
+  exists pf, gen_proof (AB K) pk gens es e_primes rs' perm label draws = Ok pf /\
+             check_proof (AB K) pk gens pf es e_primes label = Ok true.
+Proof. intros K PM. exact (tw_complete (AB K) memA (AB_laws K)). Qed.
+Print Assumptions C03_edwards_group.
